@@ -25,7 +25,8 @@ import string
 
 from ..axis import Axis, Val, MIXED, AxisError
 from ..lib import (evaluator, Decider, econd_summary, rec_fields, show, walk, strip_casts, is_ext_call,
-                   fn_name, method_name, path_str, ext_name, leaves)
+                   fn_name, method_name, path_str, ext_name, leaves, kwarg)
+from ..spec import spec_term, Comparer
 from ..terms import T, sym, const, is_const, cval, NONE
 from ..model import AnalysisError
 from . import ds_common as D
@@ -102,30 +103,37 @@ def tearfree_axis(ctx):
     okold = old.op in ('elem', 'sub') or 'stats' in show(old, maxdepth=4)
     ctx.ob('C08.R1', fstats.short, 'old statistic is this axis\'s own block stack', okold and 'block' in show(old, maxdepth=5),
            f'the EMA must update block.stats[axis]; got `{show(old, maxdepth=4)[:100]}`', ctx.loc(fstats), sample='cov from enumerate(block.stats)')
-  # the vmapped tensordot
-  import ast
-  src_ok = False
-  vm = [n for n in ast.walk(fstats.node) if isinstance(n, ast.Call) and ast.unparse(n.func) == 'jax.vmap']
-  for n in vm:
-    kws = {k.arg: ast.unparse(k.value) for k in n.keywords}
-    if kws.get('in_axes') == 'meta.blocks_axis' and kws.get('out_axes') == '0':
-      src_ok = True
-  ctx.ob('C08.R1', fstats.short, 'covariance via vmap(in_axes=blocks_axis, out_axes=0)', src_ok,
-         'the per-block covariance must be a vmap over the blocks axis of the blocked update (out_axes=0)', ctx.loc(fstats),
-         sample='jax.vmap(dot_all, in_axes=meta.blocks_axis, out_axes=0)(update, update)')
-  td = [n for n in ast.walk(fstats.node) if isinstance(n, ast.Call) and ast.unparse(n.func).endswith('tensordot')]
-  okt = False
-  for n in ast.walk(fstats.node):
-    if isinstance(n, ast.Call) and ast.unparse(n.func) == 'functools.partial' and n.args and ast.unparse(n.args[0]).endswith('tensordot'):
-      kws = {k.arg: ast.unparse(k.value) for k in n.keywords}
-      okt = kws.get('axes') == '(all_axes, all_axes)'
-  evs = evaluator(m, opaque={'_ema_update'})
-  evs.run(fstats)
-  sc = evs.last_scope
-  aa = sc.vars.get('all_axes')
-  ctx.ob('C08.R1', fstats.short, 'contraction over all axes but the statistic\'s own', okt and aa is not None and any(x.op == 'mut' and x.args[1] == 'remove' for x in walk(aa)),
-         'inside the vmap the gradient block must be contracted with itself over all axes except `axis`', ctx.loc(fstats),
-         sample='tensordot(axes=(all_axes, all_axes)), all_axes.remove(axis)')
+  # the vmapped tensordot: the value handed to the EMA as `new` is the result of a call made under
+  # jax.vmap(in_axes=<blocks axis of the blocked update>, out_axes=0), applied to (update, update), and contracts
+  # every axis of the block but the statistic's own
+  U = sym('param', fstats.short, 'update')
+  for c in calls:
+    new = c.args.get('new', NONE)
+    vm = [v for v in ev.vmap_log if v[2] is new]
+    okv = False
+    why = 'the new covariance is not computed under jax.vmap'
+    if vm:
+      wrapper, vargs, _, _ = vm[0]
+      kw = dict(wrapper.args[1])
+      okv = path_str(kw.get('in_axes', NONE)) == 'meta.blocks_axis' and is_const(kw.get('out_axes', const(0)), 0) and \
+          len(vargs) == 2 and vargs[0] is U and vargs[1] is U
+      why = f'vmap axes in={show(kw.get("in_axes", NONE), maxdepth=2)} out={show(kw.get("out_axes", NONE), maxdepth=2)}, operands {[show(a_, maxdepth=2) for a_ in vargs]}'
+    ctx.ob('C08.R1', fstats.short, 'covariance via vmap(in_axes=blocks_axis, out_axes=0)', okv,
+           f'the per-block covariance must be a vmap over the blocks axis of the blocked update (out_axes=0) applied to (update, update); {why}', ctx.loc(fstats),
+           sample='jax.vmap(dot_all, in_axes=meta.blocks_axis, out_axes=0)(update, update)')
+    okt = is_ext_call(new, 'jax.numpy.tensordot') and len(new.args[1]) == 2
+    if okt:
+      axes = kwarg(new, 'axes')
+      okt = axes is not None and axes.op in ('tuple', 'list') and len(axes.args) == 2 and axes.args[0] is axes.args[1]
+      if okt:
+        a0 = axes.args[0]
+        # all axes of the block but the statistic's own index: list(range(ndim)) with exactly that index removed
+        okt = a0.op == 'mut' and a0.args[1] == 'remove' and len(a0.args[2]) == 1 and a0.args[2][0].op == 'index' and \
+            path_str(a0.args[2][0].args[0]) == 'block.stats' and \
+            cmpr_same_range(ev, a0.args[0])
+    ctx.ob('C08.R1', fstats.short, 'contraction over all axes but the statistic\'s own', okt,
+           f'inside the vmap the gradient block must be contracted with itself over all axes except `axis`; got `{show(kwarg(new, "axes") or NONE, maxdepth=5)[:200]}`', ctx.loc(fstats),
+           sample='tensordot(axes=(all_axes, all_axes)), all_axes.remove(axis)')
   # _update_block_precond maps _pth_inv_root over block.stats with p = 2 * ndim
   ev = evaluator(m, opaque={'_pth_inv_root'})
   r = rec_fields(ev.run(fpre))
@@ -134,6 +142,11 @@ def tearfree_axis(ctx):
   ok = bool(calls) and all('block' in show(c.args.get('cov', NONE), maxdepth=5) and 'stats' in show(c.args.get('cov', NONE), maxdepth=5) for c in calls)
   ctx.ob('C08.R1', fpre.short, 'each root from its own statistic stack', ok,
          'new roots must be _pth_inv_root applied to each entry of block.stats', ctx.loc(fpre), sample='map(partial(_pth_inv_root, p), block.stats)')
+
+
+def cmpr_same_range(ev, t):
+  """t == list(range(len(meta.param_shape)))"""
+  return Comparer().same(t, spec_term(ev, 'list(range(len(meta.param_shape)))', {'meta': sym('param', '_update_block_stats', 'meta')}))
 
 
 def _axis_ob(ctx, fi, ax, term, what, want_rank):
@@ -158,13 +171,28 @@ def einsum_letters(ctx):
   fm = m.func(TS, '_blocks_metadata')
   fl = m.func(TS, '_einsum_letters')
   ctx.analysed(fp, fm, fl)
-  # the letter generator yields distinct letters in order
+  # the letter generator yields pairwise distinct letters: it relays one of the stdlib letter constants, element by element
   import ast
-  ys = [n for n in ast.walk(fl.node) if isinstance(n, ast.Yield)]
-  fors = [n for n in ast.walk(fl.node) if isinstance(n, ast.For)]
-  ok = len(ys) == 1 and len(fors) == 1 and ast.unparse(fors[0].iter) == 'string.ascii_letters' and \
-      isinstance(ys[0].value, ast.Name) and ys[0].value.id == ast.unparse(fors[0].target)
-  ctx.ob('C08.R2', fl.short, 'distinct letters', ok, '_einsum_letters must yield each letter of string.ascii_letters once', ctx.loc(fl),
+  from ..lib import module_aliases
+  al = module_aliases(fl.module.tree)
+  DISTINCT = {'string.ascii_letters', 'string.ascii_lowercase', 'string.ascii_uppercase'}
+
+  def resolves(n_):
+    if isinstance(n_, ast.Attribute) and isinstance(n_.value, ast.Name):
+      return f'{al.get(n_.value.id, n_.value.id)}.{n_.attr}'
+    if isinstance(n_, ast.Name):
+      return al.get(n_.id, n_.id)
+    return None
+  srcs = []
+  for n_ in ast.walk(fl.node):
+    if isinstance(n_, ast.YieldFrom):
+      srcs.append(resolves(n_.value))
+    elif isinstance(n_, ast.For) and len(n_.body) == 1 and isinstance(n_.body[0], ast.Expr) and isinstance(n_.body[0].value, ast.Yield) and \
+        isinstance(n_.target, ast.Name) and isinstance(n_.body[0].value.value, ast.Name) and n_.body[0].value.value.id == n_.target.id:
+      srcs.append(resolves(n_.iter))
+  n_yields = sum(1 for n_ in ast.walk(fl.node) if isinstance(n_, (ast.Yield, ast.YieldFrom)))
+  ok = len(srcs) == 1 and n_yields == 1 and srcs[0] in DISTINCT
+  ctx.ob('C08.R2', fl.short, 'distinct letters', ok, f'_einsum_letters must yield each letter of a stdlib letter constant once; sources {srcs}, {n_yields} yield sites', ctx.loc(fl),
          sample='for c in string.ascii_letters: yield c')
   B = 4
   pool = [2, 3, 8]
